@@ -13,7 +13,7 @@ import (
 	sdk "github.com/cosmos/cosmos-sdk/types"
 )
 
-func init() { props["C19"] = runC19 }
+func init() { props["C19"] = func(r *Rec) { runC19(r); c08Quorum(r) } }
 
 // encS: one token per string — empty string is "~", '%' and ' ' are percent-escaped
 func encS(s string) string {
